@@ -90,6 +90,9 @@ namespace c11
    char run_one( const std::string& s )
    {
       bud() = budget();
+      vh::steps() = 0;      // control< vh::ctl1, ... > inside a grammar replaces our observer by vh::obs_control, which counts rule starts
+      vh::lg().clear();
+      vh::st_counter() = 0;
       char* buf = new char[ s.size() ? s.size() : 1 ];
       std::memcpy( buf, s.data(), s.size() );
       char res;
@@ -106,7 +109,7 @@ namespace c11
          }
       }
       delete[] buf;
-      if( bud().tripped ) {
+      if( bud().tripped || ( vh::steps() > max_steps ) ) {
          res = 'R';   // a catch( ... ) inside the grammar may have swallowed the signal
       }
       return res;
